@@ -429,6 +429,11 @@ pub struct Host {
     next_res: u32,
     /// how often each monitor-side check was evaluated (evidence)
     pub checks: BTreeMap<&'static str, u64>,
+    /// C08: an external reference host lifts the lowered parameters / lowers the
+    /// result of the async import call `token` itself: called (token, false)
+    /// when the callee starts and (token, true) when it returns.  Runs while the
+    /// host is borrowed: it must not call back into [`with`].
+    pub sub_hook: Option<fn(u32, bool)>,
 }
 
 thread_local! {
@@ -478,6 +483,7 @@ impl Host {
             subcalls: Vec::new(),
             next_res: 1,
             checks: BTreeMap::new(),
+            sub_hook: None,
         }
     }
 
@@ -1331,6 +1337,9 @@ impl Host {
             }
             ids.push(0x8000_0000 | h);
         }
+        if let Some(hook) = self.sub_hook {
+            hook(token, false);
+        }
         self.log.push(Ev::Peer { shared: token as usize, what: "subtask-lifts-params", arg: ids.len() as u32 });
         let rec = &mut self.subcalls[token as usize - 1];
         rec.params_read = Some(ids);
@@ -1347,6 +1356,9 @@ impl Host {
             _ if !Self::guest_block_live(mem.block.0) => problem = Some("results-block-freed-before-callee-returned: the result area is no longer allocated when the host lowers the result".to_string()),
             RKind::U32 => unsafe { core::ptr::write_volatile(mem.results as *mut u32, id) },
             RKind::Item => payload::host_write_elem(Elem::Item, mem.results, id),
+        }
+        if let Some(hook) = self.sub_hook {
+            hook(token, true);
         }
         self.log.push(Ev::Peer { shared: token as usize, what: "subtask-lowers-result", arg: id });
         let rec = &mut self.subcalls[token as usize - 1];
